@@ -39,6 +39,9 @@ def run_check(pid, tier, replay=None):
         payload = json.load(open(replay))
         return mod.replay(ctx, payload)
 
+    import instantiate
+    instantiate.instantiate_all()
+
     # 1. translator: regenerate tables from the current /repo
     gen_info = None
     if hasattr(mod, "translate"):
@@ -147,6 +150,8 @@ def run_check(pid, tier, replay=None):
 def setup():
     """Generate every table from /repo and build the whole Lean project."""
     C.setup_tf()
+    import instantiate
+    instantiate.instantiate_all()
     for pid in ALL:
         try:
             mod = load_prop(pid)
